@@ -421,29 +421,57 @@ func (o *c20Origin) ServeHTTP(w http.ResponseWriter, r *http.Request) {
 var reMatched = regexp.MustCompile(`(\d+)/(\d+) blocks matched`)
 var reChunks = regexp.MustCompile(`need (\d+) chunks`)
 
-func recoverMakesync(path string, kb int) (res string) {
-	defer func() {
-		if e := recover(); e != nil {
-			m := fmt.Sprint(e)
-			if strings.Contains(m, "Invalid clustering") {
-				res = "err:badclustering"
-			} else {
-				res = "panic:" + strings.ReplaceAll(trunc(m, 60), " ", "_")
+// runMakesync runs the real Makesync in a child process (a panic in one of its goroutines cannot be
+// recovered in-process) and classifies the outcome.
+func runMakesync(path string, kb int) string {
+	cmd := exec.Command(os.Args[0], "mksyncchild", path, strconv.Itoa(kb))
+	var stderr bytes.Buffer
+	cmd.Stderr = &stderr
+	out, err := cmd.Output()
+	if err != nil {
+		first := "exit:" + err.Error()
+		for _, l := range strings.Split(stderr.String(), "\n") {
+			if strings.HasPrefix(l, "panic:") || strings.HasPrefix(l, "fatal error:") {
+				first = l
+				break
 			}
 		}
-	}()
-	err := pmtiles.Makesync(discardLogger, "v", path, kb)
-	if err != nil {
-		m := err.Error()
-		switch {
-		case strings.Contains(m, "clustered"):
-			return "err:notclustered"
-		case strings.Contains(m, "magic") || strings.Contains(m, "spec version") || strings.Contains(m, "header"):
-			return "err:header"
-		}
-		return "err:iterate"
+		return "panic:makesync:" + strings.ReplaceAll(trunc(first, 80), " ", "_")
 	}
-	return "ok"
+	return strings.TrimSpace(string(out))
+}
+
+// MksyncChild: `vh mksyncchild <archive> <blockSizeKb>`
+func MksyncChild(args []string) {
+	kb, _ := strconv.Atoi(args[1])
+	null, _ := os.OpenFile(os.DevNull, os.O_WRONLY, 0)
+	real := os.Stdout
+	os.Stdout, os.Stderr = null, null
+	res := func() (res string) {
+		defer func() {
+			if e := recover(); e != nil {
+				m := fmt.Sprint(e)
+				if strings.Contains(m, "Invalid clustering") {
+					res = "err:badclustering"
+				} else {
+					res = "panic:" + strings.ReplaceAll(trunc(m, 60), " ", "_")
+				}
+			}
+		}()
+		err := pmtiles.Makesync(discardLogger, "v", args[0], kb)
+		if err != nil {
+			m := err.Error()
+			switch {
+			case strings.Contains(m, "clustered"):
+				return "err:notclustered"
+			case strings.Contains(m, "magic") || strings.Contains(m, "spec version") || strings.Contains(m, "header"):
+				return "err:header"
+			}
+			return "err:iterate"
+		}
+		return "ok"
+	}()
+	fmt.Fprintln(real, res)
 }
 
 func (C20) RunGo(line string) string {
@@ -459,7 +487,7 @@ func (C20) RunGo(line string) string {
 		defer os.RemoveAll(dir)
 		p := dir + "/b.pmtiles"
 		os.WriteFile(p, b, 0o644)
-		if r := recoverMakesync(p, kb); r != "ok" {
+		if r := runMakesync(p, kb); r != "ok" {
 			return r
 		}
 		sf, err := os.ReadFile(p + ".sync")
@@ -480,7 +508,10 @@ func (C20) RunGo(line string) string {
 		defer os.RemoveAll(dir)
 		bp := dir + "/b.pmtiles"
 		os.WriteFile(bp, b, 0o644)
-		if r := recoverMakesync(bp, kb); r != "ok" {
+		if r := runMakesync(bp, kb); r != "ok" {
+			if strings.HasPrefix(r, "panic") {
+				return r
+			}
 			return "nosync:" + strings.TrimPrefix(r, "err:")
 		}
 		sf, _ := os.ReadFile(bp + ".sync")
